@@ -174,6 +174,68 @@ func runC18(c *Ctx) {
 			}
 		}
 	}
+	// moduli whose DER needs four-byte lengths (a fixed-size output buffer would truncate): direct oracles only
+	for _, l := range []int{65000, 65440, 65460, 65536, 70000} {
+		if l > 65460 && !c.Thorough() {
+			continue
+		}
+		nb := r.Bytes(l)
+		nb[0] |= 0x80
+		N := new(big.Int).SetBytes(nb)
+		pk := &rsa.PublicKey{N: N, E: 65537}
+		out := c.Op(fmt.Sprintf("c03.probe c18.huge-modulus %d", l), func() string {
+			for _, legacy := range []bool{false, true} {
+				var enc []byte
+				var err error
+				if legacy {
+					enc, err = util.MarshalTokenKey(pk, true)
+				} else {
+					enc, err = util.MarshalTokenKeyPSSOID(pk)
+				}
+				if err != nil {
+					continue // refusing is fine; a wrong encoding is not
+				}
+				got, err := util.UnmarshalTokenKey(enc)
+				if err != nil || got.N.Cmp(N) != 0 || got.E != 65537 {
+					return fmt.Sprintf("legacy=%v: the encoding of a %d-byte modulus (%d bytes) does not decode to the key", legacy, l, len(enc))
+				}
+				if legacy {
+					if std, err := x509.MarshalPKIXPublicKey(pk); err == nil && !bytes.Equal(std, enc) {
+						return "legacy form differs from x509.MarshalPKIXPublicKey"
+					}
+				}
+			}
+			return "-"
+		})
+		c.Count("key:huge-modulus")
+		c.Direct(out == "-", "token key with a very long modulus: "+out, map[string]any{"modulus_bytes": l})
+	}
+	// decoded keys are values of their own: a key decoded earlier keeps its modulus while others are decoded
+	{
+		var held []*rsa.PublicKey
+		var want []*big.Int
+		for k := 0; k < 6; k++ {
+			nb := r.Bytes(64 + 32*k)
+			nb[0] |= 0x80
+			N := new(big.Int).SetBytes(nb)
+			enc, err := util.MarshalTokenKeyPSSOID(&rsa.PublicKey{N: N, E: 65537})
+			must(err)
+			if k%2 == 1 {
+				enc, err = util.MarshalTokenKey(&rsa.PublicKey{N: N, E: 65537}, true)
+				must(err)
+			}
+			got, err := util.UnmarshalTokenKey(enc)
+			must(err)
+			held = append(held, got)
+			want = append(want, N)
+		}
+		ok := true
+		for k := range held {
+			ok = ok && held[k].N.Cmp(want[k]) == 0 && held[k].E == 65537
+		}
+		c.Count("key:held-across-decodes")
+		c.Direct(ok, "a token key decoded earlier changed when later keys were decoded", nil)
+	}
 	// key ids
 	for ki := 0; ki < 4; ki++ {
 		key := rsaKey(ki)
